@@ -126,16 +126,16 @@ def render(dot, predicate: Predicate, node_nr):
                 return add_node("fn", label=f"fn: {name}")
             case GePredicate(v):
                 return add_node("ge", label=f"x ≥ {v}")
-            case GeLePredicate(upper, lower):
+            case GeLePredicate(lower, upper):
                 return add_node("gele", label=f"{lower} ≤ x ≤ {upper}")
-            case GeLtPredicate(upper, lower):
+            case GeLtPredicate(lower, upper):
                 return add_node("gelt", label=f"{lower} ≤ x < {upper}")
             case GtPredicate(v):
                 return add_node("gt", label=f"x > {v}")
-            case GtLePredicate(upper, lower):
-                return add_node("gtle", label=f"{lower} ≤ x ≤ {upper}")
-            case GtLtPredicate(upper, lower):
-                return add_node("gtlt", label=f"{lower} ≤ x < {upper}")
+            case GtLePredicate(lower, upper):
+                return add_node("gtle", label=f"{lower} < x ≤ {upper}")
+            case GtLtPredicate(lower, upper):
+                return add_node("gtlt", label=f"{lower} < x < {upper}")
             case InPredicate(v):
                 return add_node("in", label=f"x ∈ {set_to_str(v)}")
             case DictOfPredicate(key_value_predicates):
